@@ -330,10 +330,12 @@ def run_dimfiles(desc):
         for d, sp in zip(U["dims"], desc["specs"]):
             path = os.path.join(tmp, f"dim_{d['letter']}.{'csv' if fmt == 'csv' else 'xlsx'}")
             named_sheet = fmt == "excel" and desc["sheets"] == "named"
-            write_dim_file(path, d["name"], d["items"], fmt, sp["orient"], sp["header"], sheet=f"dim {d['letter']}" if named_sheet else None, extra_sheet_first=named_sheet and sp["decoy_first"])
+            # sheet names are free text as well: '0', '1', '2020' are names, not positions
+            sname = [f"dim {d['letter']}", "0", "1", "2020"][sp.get("sheetname", 0) % 4]
+            write_dim_file(path, d["name"], d["items"], fmt, sp["orient"], sp["header"], sheet=sname if named_sheet else None, extra_sheet_first=named_sheet and sp["decoy_first"])
             files[d["name"]] = path
             if named_sheet:
-                sheets[d["name"]] = f"dim {d['letter']}"
+                sheets[d["name"]] = sname
         defs = dim_defs(U)
         if fmt == "csv":
             reader = fd.CSVDimensionReader(dimension_files=files)
@@ -374,14 +376,21 @@ def dimfile_cases(draw):
     U = draw(gen.universes(min_dims=1, max_dims=4, max_len=4, kinds=("str", "int")))
     for d in U["dims"]:  # file order is arbitrary, not sorted
         d["items"] = list(draw(st.permutations(d["items"])))
-        if d["dtype"] == "str" and draw(st.integers(0, 2)) == 0:
+        if d["dtype"] == "str" and draw(st.integers(0, 3)) == 0:
+            # labels that look like numbers (size classes, codes): '1.0', '2.5', '12' come back from pandas as numbers
+            # and str() gives the same text again
+            # (all of one form: a mix of '0.5' and '12' is read as floats and '12' would come back as '12.0')
+            pool = draw(st.sampled_from([["1.0", "2.0", "2.5", "10.0", "0.5", "3.25"], ["12", "7", "100", "3", "2020", "45"]]))
+            k0 = draw(st.integers(0, len(pool) - len(d["items"])))
+            d["items"] = list(draw(st.permutations(pool[k0 : k0 + len(d["items"])])))
+        elif d["dtype"] == "str" and draw(st.integers(0, 2)) == 0:
             # labels are free text: a size class may be called 's', a region 'b', a product 'Time'
             others = [o["letter"] for o in U["dims"]] + [o["name"] for o in U["dims"] if o is not d]
             lab = draw(st.sampled_from(others))
             pos = draw(st.integers(0, len(d["items"]) - 1))
             if lab not in d["items"]:
                 d["items"][pos] = lab
-    specs = [{"orient": draw(st.sampled_from(["row", "col"])), "header": draw(st.booleans()), "decoy_first": draw(st.booleans())} for _ in U["dims"]]
+    specs = [{"orient": draw(st.sampled_from(["row", "col"])), "header": draw(st.booleans()), "decoy_first": draw(st.booleans()), "sheetname": draw(st.integers(0, 3))} for _ in U["dims"]]
     fmt = draw(st.sampled_from(["csv", "excel", "excel"]))
     return {"universe": U, "specs": specs, "fmt": fmt, "sheets": draw(st.sampled_from(["named", "first"])) if fmt == "excel" else "n/a"}
 
